@@ -31,6 +31,7 @@ NFAIL=$(grep -m1 "^# FAIL:" /tmp/check-$P-$M.log | awk '{print $3}')
 tail -c 600 $OUT/demo_patched.log > $OUT/demo_patched.tail; tail -c 300 $OUT/demo_unpatched.log > $OUT/demo_unpatched.tail
 rm -f $OUT/demo_patched.log $OUT/demo_unpatched.log $OUT/build.log /tmp/demo-$P-$M-orig /tmp/demo-$P-$M-mut /tmp/check-$P-$M.log
 rm -rf $OUT/cfg
+cd /
 git -C /repo worktree remove --force $WT; git -C /repo worktree prune
 python3 - <<PY
 import json
